@@ -312,6 +312,20 @@ def run(ck):
     check_det(ck, prog)
     # a re-used coder must behave like a fresh one ("the same data with the same options always yields identical bytes",
     # "the same final status"): no session member may keep a value from the previous use on some init paths only
+    # an encoder that reports the end of its output before its last state has run produces output whose length depends
+    # on where the caller's buffer happened to end
+    from .oblig import MP, evaluate
+    ck.rule("C06-END", "LZMA_STREAM_END is returned only from the final state of the resumable encoders")
+    evaluate(ck, prog, "C06-END", [
+        MP("index_encode", "index_encode", "index_encoder.c", [("test", "field:pos&const:4", "F")],
+           ("ret", ("LZMA_STREAM_END",)),
+           why="the Index encoder ends only after the fourth CRC32 byte was written (a VLI field ending exactly at the "
+               "end of the output buffer must not end the Index)"),
+        MP("block_encode", "block_encode", "block_encoder.c", [("test", "field:pos&call:lzma_check_size", "F")],
+           ("ret", ("LZMA_STREAM_END",)), bypass=[("cmp", "field:check", "enum:LZMA_CHECK_NONE"), ("cmp", "var:action", "enum:LZMA_SYNC_FLUSH")],
+           why="the Block encoder ends only after the whole Check field was copied out (or there is no Check, or a "
+               "sync flush completed)"),
+    ], floor=2)
     from . import reinit
     ck.rule("C06-INITCONS", "a coder member that the init function (re)initialises on some paths and that coding "
                             "modifies is initialised on every path returning LZMA_OK")
